@@ -1150,10 +1150,20 @@ def str_method(ex, s, name, e):
                 ex.assume(z3.Not(z3.PrefixOf(ch, r)))
             return V(VStr(r))
         raise Unsupported('lstrip with a non-literal character set')
-    if name in ('rstrip', 'strip', 'lstrip') and not args:
-        # T2: whitespace-only suffix/prefix removed; the result has no blank at that end
+    if name in ('rstrip', 'strip', 'lstrip') and (not args or name == 'rstrip'):
+        # T2: whitespace-only (or, with an argument, given-characters-only) suffix/prefix removed; the
+        # result has none of them at that end
         from . import regex
-        ws = regex.char_class(BLANKS_STRIP)
+        if args:
+            chars = as_val(args[0])
+            if not (static_kind(chars) == 'VStr' and z3.is_string_value(chars.arg(0)) and chars.arg(0).as_string()):
+                raise Unsupported('rstrip with a non-literal character set')
+            lit = chars.arg(0).as_string()
+            import re as _re
+            lit = _re.sub(r'\\u\{([0-9a-fA-F]+)\}', lambda m: chr(int(m.group(1), 16)), lit)
+            ws = regex.char_class(lit)
+        else:
+            ws = regex.char_class(BLANKS_STRIP)
         r = fresh(name + 'ped', vl.String)
         if name == 'rstrip':
             t = fresh('trail', vl.String)
